@@ -28,7 +28,7 @@ STUBS = [
     "phases on the 2*pi*k/360 grid (SPhase); amplitudes reals; detunings on the 1e-7 grid",
 ]
 FLOAT_MODE = "R-mode / D-mode / SPhase as listed"
-BOUNDS = {"quick": dict(programs=12, ops_per_program="<=9"), "thorough": dict(programs=16, ops_per_program="<=12")}
+BOUNDS = {"quick": dict(programs=12, ops_per_program="<=9"), "thorough": dict(programs=16, ops_per_program="<=12", prefixes="every proper prefix of >= 2 operations of every program, both codecs")}
 OUTSIDE = ["JSON number text formatting (Python repr round-trips floats)", "InterpolatedWaveform/KaiserWaveform sample values (concrete only)",
            "torch", "np.round/ceil/floor of a variable (see finding note in DESIGN)"]
 
@@ -204,6 +204,8 @@ def static_equal(a, b):
 
 def h_roundtrip(shape):
     P = PROGRAMS[shape["program"]]
+    if shape.get("upto"):
+        P = dict(P, prog=P["prog"][:shape["upto"]])
 
     def h(inp):
         stubs.bind(inp)
@@ -305,6 +307,13 @@ def kernels(tier):
     for name in PARAM_PROGRAMS:
         ks.append(("param", dict(program=name, codec="abstract")))
         ks.append(("param", dict(program=name, codec="legacy")))
+    if tier != "quick":
+        # every proper prefix (>= 2 operations) of every program is a sequence of its own: intermediate states
+        # (pending fall times, an open EOM block, a mask configured but not yet applied, no measurement) round-trip too
+        for name, P in PROGRAMS.items():
+            for n in range(2, len(P["prog"])):
+                for codec in ("abstract", "legacy"):
+                    ks.append(("roundtrip", dict(program=name, codec=codec, upto=n)))
     return ks
 
 
